@@ -70,7 +70,7 @@ class Func:
 
     def loc(self, node: Optional[ast.AST] = None) -> str:
         n = node if node is not None else self.node
-        return f"{self.module.path}:{getattr(n, 'lineno', 0)} {self.short}"
+        return f"{self.module.path}:{getattr(n, '_src_lineno', getattr(n, 'lineno', 0))} {self.short}"
 
 
 @dataclass
@@ -124,6 +124,8 @@ class Program:
         self.classes: Dict[str, Class] = {}
         self.file_digests: Dict[str, str] = {}
         self._load(overlay or {})
+        from .inline import inline_new_helpers, load_known
+        self.inlined = inline_new_helpers({name: (m.path, m.tree) for name, m in self.modules.items()}, load_known())
         self._canonicalise_tests()
         self._index()
         self._canonicalise_calls()
@@ -281,72 +283,10 @@ class Program:
                 node.keywords = [k for k in node.keywords if k.arg in kw]
 
     def _canonicalise_tests(self):
-        """Comparison spelling is normalised in the parsed trees: `not (a op b)` becomes the negated
-        operator, `a > b` / `a >= b` become `b < a` / `b <= a`, the operands of == / != are put in a
-        fixed (textual) order, and `if not c: A else: B` becomes `if c: B else: A`.  Chained
-        comparisons are left alone."""
-        NEG = {ast.Eq: ast.NotEq, ast.NotEq: ast.Eq, ast.Lt: ast.GtE, ast.GtE: ast.Lt, ast.Gt: ast.LtE, ast.LtE: ast.Gt,
-               ast.In: ast.NotIn, ast.NotIn: ast.In, ast.Is: ast.IsNot, ast.IsNot: ast.Is}
-
-        class T(ast.NodeTransformer):
-            def visit_UnaryOp(self, node):
-                self.generic_visit(node)
-                if isinstance(node.op, ast.Not) and isinstance(node.operand, ast.Compare) and len(node.operand.ops) == 1 and type(node.operand.ops[0]) in NEG:
-                    c = node.operand
-                    new = ast.Compare(left=c.left, ops=[NEG[type(c.ops[0])]()], comparators=c.comparators)
-                    return self.visit_Compare(ast.copy_location(new, node), descend=False)
-                if isinstance(node.op, ast.Not) and isinstance(node.operand, ast.UnaryOp) and isinstance(node.operand.op, ast.Not):
-                    pass  # `not not x` is bool(x), not x: keep
-                return node
-
-            def visit_Compare(self, node, descend=True):
-                if descend:
-                    self.generic_visit(node)
-                if len(node.ops) != 1:
-                    return node
-                op = type(node.ops[0])
-                l, r = node.left, node.comparators[0]
-                if op in (ast.Gt, ast.GtE):
-                    return ast.copy_location(ast.Compare(left=r, ops=[ast.Lt() if op is ast.Gt else ast.LtE()], comparators=[l]), node)
-                if op in (ast.Eq, ast.NotEq) and ast.unparse(r) < ast.unparse(l) and not isinstance(r, ast.Constant):
-                    return ast.copy_location(ast.Compare(left=r, ops=[op()], comparators=[l]), node)
-                if op in (ast.Eq, ast.NotEq) and isinstance(l, ast.Constant) and not isinstance(r, ast.Constant):
-                    return ast.copy_location(ast.Compare(left=r, ops=[op()], comparators=[l]), node)
-                return node
-
-            def visit_Call(self, node):
-                # getattr(x, "name") is x.name; getattr(x, "name", d) is (x.name if hasattr(x, "name") else d): with a
-                # literal name the access is not dynamic, and the attribute read stays visible to every rule
-                self.generic_visit(node)
-                if isinstance(node.func, ast.Name) and node.func.id == "getattr" and not node.keywords and len(node.args) in (2, 3) \
-                        and isinstance(node.args[1], ast.Constant) and isinstance(node.args[1].value, str) and node.args[1].value.isidentifier():
-                    attr = ast.copy_location(ast.Attribute(value=node.args[0], attr=node.args[1].value, ctx=ast.Load()), node)
-                    if len(node.args) == 2:
-                        return attr
-                    has = ast.copy_location(ast.Call(func=ast.Name(id="hasattr", ctx=ast.Load()), args=[node.args[0], node.args[1]], keywords=[]), node)
-                    return ast.copy_location(ast.IfExp(test=has, body=attr, orelse=node.args[2]), node)
-                return node
-
-            def visit_If(self, node):
-                self.generic_visit(node)
-                plain_else = node.orelse and not (len(node.orelse) == 1 and isinstance(node.orelse[0], ast.If))
-                if isinstance(node.test, ast.UnaryOp) and isinstance(node.test.op, ast.Not) and plain_else:
-                    node.test, node.body, node.orelse = node.test.operand, node.orelse, node.body
-                elif isinstance(node.test, ast.Compare) and len(node.test.ops) == 1 and plain_else:
-                    # canonical polarity of a two-way branch: the test is the "positive" comparison
-                    op = type(node.test.ops[0])
-                    c = node.test
-                    if op is ast.LtE:      # a <= b  ==  not (b < a)
-                        node.test = ast.copy_location(ast.Compare(left=c.comparators[0], ops=[ast.Lt()], comparators=[c.left]), c)
-                        node.body, node.orelse = node.orelse, node.body
-                    elif op in (ast.NotEq, ast.NotIn, ast.IsNot):
-                        pos = {ast.NotEq: ast.Eq, ast.NotIn: ast.In, ast.IsNot: ast.Is}[op]
-                        node.test = ast.copy_location(ast.Compare(left=c.left, ops=[pos()], comparators=c.comparators), c)
-                        node.body, node.orelse = node.orelse, node.body
-                return node
-
+        """See vk/canon.py: comparison / branch / call spelling is normalised in the parsed trees."""
+        from .canon import Canon
         for m in self.modules.values():
-            m.tree = T().visit(m.tree)
+            m.tree = Canon().visit(m.tree)
             ast.fix_missing_locations(m.tree)
 
     # ------------------------------------------------------------------ resolution
